@@ -1,15 +1,41 @@
-(* C19 — extreme capacities: position arithmetic is exact for every modulus
-   up to usize::MAX, with no intermediate overflow, division by zero or failed
-   debug assertion, in debug (dbg w = true) and release builds alike. *)
-From CB Require Import Spec.
-From CBP Require Import Arith.
-Theorem C19_add_mod : forall x y m s w,
+(* C19 — zero-sized elements and extreme capacities behave like any other.
+   Position arithmetic is exact for every modulus up to usize::MAX, with no
+   intermediate overflow, division by zero or failed debug assertion, in debug
+   (dbg w = true) and release builds alike; and every theorem of this
+   development quantifies over every capacity < 2^64 and never inspects the
+   element type, so C01/C11 instantiate to usize::MAX and zero-sized elements.
+   This file only pins statements; proofs are in coq/proofs/. *)
+From CB Require Import Spec Unstable.
+From Coq Require Import Permutation.
+From CBP Require Import Step RefDefs C02Lemmas Arith AbsLemmas AllOps FaultDefs FaultPrims FaultDropA FaultDropB FaultUser
+     Iters DrainP ExtendIo CmpHash Ctors PhysMoves UnstableEq Access Views RefTruncate FillExtend.
+
+
+Theorem C19_add_mod :
+  forall x y m s w,
   0 < m < W -> 0 <= x <= m -> 0 <= y <= m ->
   add_mod x y m s w = (Ok ((x + y) mod m), s, w).
-Proof. exact add_mod_ok. Qed.
+Proof. exact (add_mod_ok). Qed.
 Print Assumptions C19_add_mod.
-Theorem C19_sub_mod : forall x y m s w,
+
+Theorem C19_sub_mod :
+  forall x y m s w,
   0 < m < W -> 0 <= x <= m -> 0 <= y <= m ->
   sub_mod x y m s w = (Ok ((x + (m - y)) mod m), s, w).
-Proof. exact sub_mod_ok. Qed.
+Proof. exact (sub_mod_ok). Qed.
 Print Assumptions C19_sub_mod.
+
+Theorem C19_all_capacities :
+  forall o, refines_op o.
+Proof. exact (exec_refines). Qed.
+Print Assumptions C19_all_capacities.
+
+Theorem C19_no_arith_panic :
+  forall o s w,
+  WF s -> fault w = None -> op_ok s o ->
+  match spec_step (cap s) (abs s) o (next_id w) with
+  | SRet _ => exists v s' w', exec o s w = (Ok v, s', w') /\ WF s' /\ cap s' = cap s
+  | SPanic => exists k, exec o s w = (Panic k, s, w) /\ (k = PAssert \/ k = PExpect)
+  end.
+Proof. exact (total_or_documented). Qed.
+Print Assumptions C19_no_arith_panic.
